@@ -475,7 +475,9 @@ def matmul(a: XArray, b: XArray) -> XArray:
             tot = tot + x * y
         return tot
     if a.ndim == 1:
-        return matmul(a.reshape(1, -1), b)[0]
+        # numpy: a is promoted to (1, k) and the prepended axis is removed from the result (position -2)
+        r = matmul(a.reshape(1, -1), b)
+        return r.reshape(r.shape[:-2] + r.shape[-1:])
     if b.ndim == 1:
         r = matmul(a, b.reshape(-1, 1))
         return r.reshape(r.shape[:-1])
